@@ -6,6 +6,14 @@ props = [json.loads(l) for l in open(os.path.join(ROOT, 'properties.jsonl'))]
 NOTE_COMMON = ("Trusted: clang 14 front end; engine R (own symbolic executor over clang's AST of the current tree); exact reals for "
                "double/float; listed library models; z3 5.1/4.8.12, cvc5 1.0.3. Everything else is listed per run in the evidence file.")
 CLAIMS = {
+ 'C02': dict(
+   text=("Per-element contracts on the real force routines (arbitrary iteration of the per-face loops): pressure gives each node of a used face "
+         "p*cr/6 and nothing else; tension/elasticity gives force_i = -gamma_eff dA/dx_i (stated division-free against the cached normal, whose "
+         "meaning is the face-cache invariant), zero net force and torque per face; angle gradients sum to zero; prologue of the tension "
+         "routine; gradient lemmas for area and volume. Bending and the angle-regularisation force are named as not yet covered; whole-cell "
+         "zero net pressure force rests on the quoted closed-surface lemma."),
+   design='6 C02', technique='contract-based deductive verification: loop-body contracts on the clang AST + SMT and exact ideal-membership (sympy Groebner) for polynomial identities',
+   note=NOTE_COMMON + " sympy 1.14 polynomial arithmetic is an additional trusted back end for equalities."),
  'C03': dict(
    text=("Contracts on the real time_integration_scheme::update_nodes_positions in four compile-time configurations (contact model 0/1 x dynamic "
          "model 0/1, one clang run each through the guarded override hook): time advances by exactly dt per call (loops by contract with a frame "
